@@ -278,10 +278,18 @@ pub fn wide() -> Tree {
     }
 }
 
+/// a WIDE node of player two (40 actions) below a chance move and a choice of player one whose best action depends on
+/// the value of that node
+pub fn wide_two() -> Tree {
+    let reply = |c: i64| Tree::P { pl: 2, info: "y".into(), kids: (0..40).map(|j| PKid { a: format!("b{j:02}"), t: term(2 + (j * 7 + c * 3) % 5) }).collect() };
+    let first = |c: i64| player(1, "x", vec![("out", term(1)), ("in", reply(c))]);
+    chance("coin", vec![(1, first(0)), (2, first(1))])
+}
+
 /// games whose size crosses thresholds an implementation might special-case (64 / 1024 infosets of one player, counts
 /// that are not multiples of the thread count or of 32)
 pub fn large() -> Vec<(String, Tree)> {
-    vec![("chain130".to_string(), chain(130)), ("cards67".to_string(), cards(67)), ("cards1025".to_string(), cards(1025)), ("wide300".to_string(), wide())]
+    vec![("chain130".to_string(), chain(130)), ("cards67".to_string(), cards(67)), ("cards1025".to_string(), cards(1025)), ("wide300".to_string(), wide()), ("wide40two".to_string(), wide_two())]
 }
 
 pub fn all() -> Vec<(String, Tree)> {
